@@ -4,10 +4,50 @@ use etherparse::*;
 use serde_json::{json, Value};
 use std::panic::{catch_unwind, AssertUnwindSafe};
 
-/// variant name of a Debug rendering: up to the first '(' , '{' or ' '
-fn vname<T: core::fmt::Debug>(v: &T) -> String {
-    let s = format!("{:?}", v);
-    s.chars().take_while(|c| c.is_alphanumeric() || *c == '_').collect()
+// variant names by explicit match: independent of how the crate renders its values
+fn n_icmp4(t: &Icmpv4Type) -> &'static str {
+    use Icmpv4Type::*;
+    match t {
+        Unknown { .. } => "Unknown", EchoReply(_) => "EchoReply", DestinationUnreachable(_) => "DestinationUnreachable", Redirect(_) => "Redirect", EchoRequest(_) => "EchoRequest",
+        TimeExceeded(_) => "TimeExceeded", ParameterProblem(_) => "ParameterProblem", TimestampRequest(_) => "TimestampRequest", TimestampReply(_) => "TimestampReply",
+    }
+}
+fn n_icmp6(t: &Icmpv6Type) -> &'static str {
+    use Icmpv6Type::*;
+    match t {
+        Unknown { .. } => "Unknown", DestinationUnreachable(_) => "DestinationUnreachable", PacketTooBig { .. } => "PacketTooBig", TimeExceeded(_) => "TimeExceeded",
+        ParameterProblem(_) => "ParameterProblem", EchoRequest(_) => "EchoRequest", EchoReply(_) => "EchoReply", RouterSolicitation => "RouterSolicitation",
+        RouterAdvertisement(_) => "RouterAdvertisement", NeighborSolicitation => "NeighborSolicitation", NeighborAdvertisement(_) => "NeighborAdvertisement", Redirect => "Redirect",
+    }
+}
+fn n_pay6(p: &icmpv6::Icmpv6PayloadSlice) -> &'static str {
+    use icmpv6::Icmpv6PayloadSlice::*;
+    match p {
+        DestinationUnreachable(_) => "DestinationUnreachable", PacketTooBig(_) => "PacketTooBig", TimeExceeded(_) => "TimeExceeded", ParameterProblem(_) => "ParameterProblem",
+        EchoRequest(_) => "EchoRequest", EchoReply(_) => "EchoReply", RouterSolicitation(_) => "RouterSolicitation", RouterAdvertisement(_) => "RouterAdvertisement",
+        NeighborSolicitation(_) => "NeighborSolicitation", NeighborAdvertisement(_) => "NeighborAdvertisement", Redirect(_) => "Redirect", Raw(_) => "Raw", _ => "Other",
+    }
+}
+fn n_ndp(o: &icmpv6::NdpOptionSlice) -> &'static str {
+    use icmpv6::NdpOptionSlice::*;
+    match o {
+        SourceLinkLayerAddress(_) => "SourceLinkLayerAddress", TargetLinkLayerAddress(_) => "TargetLinkLayerAddress", PrefixInformation(_) => "PrefixInformation",
+        RedirectedHeader(_) => "RedirectedHeader", Mtu(_) => "Mtu", Unknown(_) => "Unknown", _ => "Other",
+    }
+}
+fn n_igmp(t: &IgmpType) -> &'static str {
+    use IgmpType::*;
+    match t {
+        MembershipQuery(_) => "MembershipQuery", MembershipQueryWithSources(_) => "MembershipQueryWithSources", MembershipReportV1(_) => "MembershipReportV1",
+        MembershipReportV2(_) => "MembershipReportV2", MembershipReportV3(_) => "MembershipReportV3", LeaveGroup(_) => "LeaveGroup", Unknown(_) => "Unknown",
+    }
+}
+fn n_arpview(e: &err::arp::ArpEthIpv4FromError) -> &'static str {
+    use err::arp::ArpEthIpv4FromError::*;
+    match e {
+        NonMatchingHwType(_) => "NonMatchingHwType", NonMatchingProtocolType(_) => "NonMatchingProtocolType", NonMatchingHwAddrSize(_) => "NonMatchingHwAddrSize",
+        NonMatchingProtoAddrSize(_) => "NonMatchingProtoAddrSize",
+    }
 }
 fn rg(c: &Ctx, s: &[u8]) -> Vec<i64> {
     let (o, l) = c.rg(s);
@@ -64,7 +104,7 @@ pub fn ndp_steps(c: &Ctx, mut it: icmpv6::NdpOptionsIterator) -> Vec<Value> {
             }
             Some(Ok(o)) => {
                 let (tf, re) = ndp_typed(o);
-                json!({"k": "item", "name": vname(o), "t": o.as_bytes()[0], "rg": rg(c, o.as_bytes()), "bytes": o.as_bytes(), "tf": tf, "re": re})
+                json!({"k": "item", "name": n_ndp(o), "t": o.as_bytes()[0], "rg": rg(c, o.as_bytes()), "bytes": o.as_bytes(), "tf": tf, "re": re})
             }
             Some(Err(e)) => {
                 let _ = format!("{} {:?}", e, e);
@@ -150,7 +190,7 @@ pub fn run_case(id: &str, case: &Value) -> Value {
         let c = Ctx::new(&b);
         match kind.as_str() {
             "icmp4" => match Icmpv4Slice::from_slice(&b) {
-                Err(e) => json!({"ev": "icmp4", "id": id, "bytes": b, "ok": 0, "req": e.required_len, "len": e.len, "layer": format!("{:?}", e.layer),
+                Err(e) => json!({"ev": "icmp4", "id": id, "bytes": b, "ok": 0, "req": e.required_len, "len": e.len, "layer": crate::errp::layer_s(e.layer),
                                  "kind": "", "hlen": -1, "norm": [], "pay": [-1, -1], "hdr_same": -1}),
                 Ok(s) => {
                     let t = s.icmp_type();
@@ -160,7 +200,7 @@ pub fn run_case(id: &str, case: &Value) -> Value {
                         && Icmpv4Header::from_slice(&h.to_bytes()).map(|(x, rest)| x == h && rest.is_empty()).unwrap_or(false)
                         && { let mut w: Vec<u8> = vec![]; h.write(&mut w).is_ok() && w[..] == h.to_bytes()[..] && w.len() == h.header_len() }
                         && Icmpv4Header::read(&mut std::io::Cursor::new(&h.to_bytes()[..])).map(|x| x == h).unwrap_or(false);
-                    json!({"ev": "icmp4", "id": id, "bytes": b, "ok": 1, "req": -1, "len": -1, "layer": "", "kind": vname(&t), "hlen": s.header_len(),
+                    json!({"ev": "icmp4", "id": id, "bytes": b, "ok": 1, "req": -1, "len": -1, "layer": "", "kind": n_icmp4(&t), "hlen": s.header_len(),
                            "norm": h.to_bytes().to_vec(), "pay": rg(&c, s.payload()), "hdr_same": if hs && h.icmp_type == t && t.header_len() == s.header_len() { 1 } else { 0 }})
                 }
             },
@@ -188,12 +228,12 @@ pub fn run_case(id: &str, case: &Value) -> Value {
                                 Redirect(x) => json!({"has": 1, "rg": rg(&c, x.options()), "steps": ndp_steps(&c, x.options_iterator())}),
                                 _ => none_opts(),
                             };
-                            (json!({"k": "ok", "name": vname(&p), "req": -1, "len": -1}), o, payload_view(&c, &t, s.payload(), &p))
+                            (json!({"k": "ok", "name": n_pay6(&p), "req": -1, "len": -1}), o, payload_view(&c, &t, s.payload(), &p))
                         }
                     };
                     let fps = match t.fixed_payload_size() { None => -1i64, Some(x) => x as i64 };
                     assert!(h.fixed_payload_size() == t.fixed_payload_size() && t.header_len() == 8 && h.header_len() == 8);
-                    json!({"ev": "icmp6", "id": id, "bytes": b, "ok": 1, "req": -1, "len": -1, "kind": vname(&t), "norm": h.to_bytes().to_vec(), "pay": rg(&c, s.payload()),
+                    json!({"ev": "icmp6", "id": id, "bytes": b, "ok": 1, "req": -1, "len": -1, "kind": n_icmp6(&t), "norm": h.to_bytes().to_vec(), "pay": rg(&c, s.payload()),
                            "hdr_same": if hs && h.icmp_type == t { 1 } else { 0 }, "ps": ps, "opts": opts, "pv": pv, "tc": [t.type_u8(), t.code_u8(), fps]})
                 }
             },
@@ -250,7 +290,7 @@ pub fn run_case(id: &str, case: &Value) -> Value {
                     tf.push(h.checksum as i64);
                     // encode -> decode gives the value back
                     let back = IgmpHeader::from_slice(&h.to_bytes()).map(|(x, r)| x == h && r.is_empty()).unwrap_or(false);
-                    json!({"ev": "igmp", "id": id, "bytes": b, "ok": 1, "req": -1, "len": -1, "kind": vname(&h.igmp_type), "hlen": h.header_len(),
+                    json!({"ev": "igmp", "id": id, "bytes": b, "ok": 1, "req": -1, "len": -1, "kind": n_igmp(&h.igmp_type), "hlen": h.header_len(),
                            "norm": h.to_bytes().to_vec(), "rest": rg(&c, rest), "tf": tf, "back": if back { 1 } else { 0 }})
                 }
             },
@@ -281,7 +321,7 @@ pub fn run_case(id: &str, case: &Value) -> Value {
                             Err(e) => {
                                 let _ = format!("{} {:?}", e, e);
                                 let same = ArpEthIpv4Packet::try_from(p.clone()) == Err(e.clone());
-                                json!({"ev": "arp", "id": id, "bytes": b, "ok": 1, "req": -1, "view": if same { vname(&e) } else { "TryFromDiffers".to_string() }, "f": [], "back": -1})
+                                json!({"ev": "arp", "id": id, "bytes": b, "ok": 1, "req": -1, "view": if same { n_arpview(&e) } else { "TryFromDiffers" }, "f": [], "back": -1})
                             }
                         }
                     }
